@@ -8,6 +8,7 @@ RULE = ("is_totp_token_valid (explicit time, 5 key forms) and the system-clock f
 U64 = 2 ** 64
 
 def gen(rng, tier, codes=None):
+    gen._nflip = 0
     # two-phase: first ask the spec (through the model binary) for the true codes, then build the cases
     import core, os, tempfile
     model = os.path.join(core.OCAML, "model_run")
@@ -51,12 +52,21 @@ def gen(rng, tier, codes=None):
             for tok in (cv * 10 + 7, cv // 10):
                 if -2 ** 31 <= tok < 2 ** 31 and tok != cv: toks.append((tok, "code-digits-shifted"))
         toks += [(0, "zero"), (1, "one"), (10 ** d - 1, "10^d-1"), (-1, "neg"), (10 ** d, "10^d"), (2 ** 31 - 1, "intmax"), (-2 ** 31, "intmin"), (toks[0][0] + 10 ** d if toks[0][0] + 10 ** d < 2 ** 31 else 5, "code+10^d")]
+        # a window code with exactly ONE of its 32 bits flipped (incl. the sign bit): related to an accepted value by a power of two, accepted by nothing
+        # that compares values, but by anything that folds the three comparisons into word arithmetic (products, sums, masks of differences)
+        nflip = getattr(gen, "_nflip", 0); gen._nflip = nflip + 1
+        if nflip % 10 == 0:
+            for cv, w_ in [x for x in list(toks) if x[1] in ("step-1", "step+0", "step+1")]:
+                for b in range(32):
+                    u = (cv ^ (1 << b)) & 0xFFFFFFFF
+                    tok = u - 2 ** 32 if u >= 2 ** 31 else u
+                    toks.append((tok, "window-code-bit-flipped"))
         cc = "c=%d" % c if c in (0, 1, 2) else ("c=max-%d" % (U64 - 1 - c) if U64 - 1 - c < 3 else "c.mid")
         for tok, what in toks:
             cases.append(Case("totpvalid %s %d %s %d %d %d" % (t, tok, hexs(k), ts, p, d), "at %s p=%d %s tok=%s" % (t, p, cc, what), what.startswith("step"),
                               spec="spec.totpvalid %s %d %s %d %d %d" % (t, tok, hexs(k), ts, p, d)))
             if ts < 2 ** 63:
-                for step in ((0, p) if p < 10 ** 6 else (0,)):
+                for step in ((0, p) if p < 10 ** 6 and what != "window-code-bit-flipped" else (0,)):
                     cases.append(Case("totpvalidnow %s %d %s %d %d %d 0 %d" % (t, tok, hexs(k), p, d, ts, step),
                                       "now %s p=%d %s tok=%s tick=%d" % (t, p, cc, what, 1 if step else 0), what.startswith("step"),
                                       spec="spec.totpvalid %s %d %s %d %d %d" % (t, tok, hexs(k), ts, p, d)))
